@@ -17,6 +17,12 @@ from .astutil import unparse, call_name
 
 CACHE_RE = re.compile(r"^self\.current_[a-z]+_(logd|grad)$")
 POINT = "self.current_point"
+# cache kind -> the evaluations that may fill it
+WHICH = {
+    "target_logd": re.compile(r"(^|\.)(target\.logd|target\.logpdf|_nuts_target|posterior\.logd)$"),
+    "target_grad": re.compile(r"(^|\.)(target\.gradient|_nuts_target|posterior\.gradient)$"),
+    "likelihood_logd": re.compile(r"(^|\.)(_loglikelihood|likelihood\.logd|likelihood\.logpdf)$"),
+}
 
 
 def _strip_copy(e):
@@ -97,6 +103,21 @@ def cache_point_rule(chk, repo: Repo, rule: str, classes) -> int:
                         break
                     if found:
                         evals = found
+                # which function filled the cache?  (the likelihood-only cache of pCN is not the target's log-density, a gradient cache not a log-density)
+                callees = []
+                if isinstance(core, ast.Call) and core.args:
+                    callees = [call_name(core) or ""]
+                elif isinstance(core, ast.Name) and evals is not None:
+                    callees = [call_name(g.nodes[i].ast.value) or "" for i in rd.reaching(node, core.id) if i != g.entry.id]
+                kind_ = p.split("current_", 1)[1]
+                want = WHICH.get(kind_)
+                wrong = [c_ for c_ in callees if want is not None and c_ and not want.search(c_)]
+                if wrong:
+                    chk.fail(rule, inst + "/function", site(repo, s),
+                             f"`{unparse(s)[:90]}` fills the cache `{p}` with `{wrong[0]}(...)`: that is not the quantity this cache memoises "
+                             f"({want.pattern}); the next acceptance ratio compares it with a freshly evaluated value of the right quantity, i.e. every transition until "
+                             f"the first acceptance uses a wrong ratio", s)
+                    continue
                 if evals is not None:
                     evals = [POINT if (e and "." not in e and alias_of_point(e)) else e for e in evals]
                     if all(e == POINT for e in evals):
